@@ -368,16 +368,19 @@ theorem inv_addMeas {dflt : Nat → ν} {l : List (Item ν)} {st st' : St ν} (h
               meas := if c then st.meas else st.meas ++ [st.queue.length],
               hasCollapse := st.hasCollapse || c } := by
     unfold addMeas at ha
-    simp only at ha
-    by_cases hd : (st.meas.any fun p => nameAt st.queue p == some (chosenName dflt st nm)) = true
-    · rw [if_pos hd] at ha; cases ha
-    · rw [if_neg hd] at ha
-      refine ⟨chosenName dflt st nm, ?_, (Option.some.inj ha).symm⟩
-      unfold nameSpec chosenName
-      rw [hlast]
-      cases nm with
-      | none => simp only; rw [hmi]
-      | some y => rfl
+    unfold nameSpec
+    rw [hlast]
+    cases nm with
+    | none =>
+      simp only at ha ⊢
+      refine ⟨dflt (nMeas st.queue), by rw [hmi], ?_⟩
+      exact (Option.some.inj ha).symm
+    | some y =>
+      simp only at ha ⊢
+      by_cases hd : (st.meas.any fun p => nameAt st.queue p == some y) = true
+      · rw [if_pos hd] at ha; cases ha
+      · rw [if_neg hd] at ha
+        exact ⟨y, rfl, (Option.some.inj ha).symm⟩
   subst hst'
   have hgt : ∀ ts', (Item.meas ts nm c : Item ν).gateTouching ts' = false := fun _ => rfl
   refine ⟨?_, ?_, ?_, ?_, ?_⟩
@@ -571,6 +574,22 @@ theorem qubitsAt_eq {dflt : Nat → ν} {l : List (Item ν)} {st : St ν} (h : I
   | meas ts nm c => rfl
   | measB ts nm c rot => exact absurd hx (hb _ (List.getElem_mem hp) ts nm c rot)
 
+/-- an explicit register name never equals the DEFAULT name of a LATER measurement. -/
+def NoClash (dflt : Nat → ν) (l : List (Item ν)) : Prop :=
+  ∀ i j ts y c ts' c', i < j → l[i]? = some (Item.meas ts (some y) c) →
+    l[j]? = some (Item.meas ts' none c') → y ≠ dflt (mIndex l j)
+
+theorem NoClash.prefix {dflt : Nat → ν} {l : List (Item ν)} {x : Item ν}
+    (h : NoClash dflt (l ++ [x])) : NoClash dflt l := by
+  intro i j ts y c ts' c' hij hi hj
+  have hjl : j < l.length := by
+    by_contra hc
+    rw [List.getElem?_eq_none (by omega)] at hj; cases hj
+  have := h i j ts y c ts' c' hij
+    (by rw [List.getElem?_append_left (by omega)]; exact hi)
+    (by rw [List.getElem?_append_left hjl]; exact hj)
+  rwa [mIndex_snoc_le l x (Nat.le_of_lt hjl)] at this
+
 theorem mIndex_lt_of_meas {l : List (Item ν)} {p n : Nat} (hp : p < n) (hn : n ≤ l.length)
     (hm : (l[p]'(by omega)).isMeas = true) : mIndex l p < mIndex l n := by
   unfold mIndex
@@ -587,8 +606,8 @@ theorem mIndex_lt_of_meas {l : List (Item ν)} {p n : Nat} (hp : p < n) (hn : n 
 def finalNames (dflt : Nat → ν) (l : List (Item ν)) : List (Option ν) :=
   ((List.range l.length).filter (isFinal l)).map (nameSpec dflt l)
 
-theorem finalNames_nodup {dflt : Nat → ν} (l : List (Item ν))
-    (hb : NoB l) {st : St ν} (hr : run dflt l = some st) :
+theorem finalNames_nodup {dflt : Nat → ν} (hinj : Function.Injective dflt) (l : List (Item ν))
+    (hb : NoB l) (hc : NoClash dflt l) {st : St ν} (hr : run dflt l = some st) :
     (finalNames dflt l).Nodup := by
   induction l using List.reverseRecOn generalizing st with
   | nil => simp [finalNames]
@@ -602,7 +621,7 @@ theorem finalNames_nodup {dflt : Nat → ν} (l : List (Item ν))
       rw [h0] at hr
       simp only [Option.bind_some, runFrom] at hr
       have hinv : Inv dflt l s0 := inv_run hbl h0
-      have ihn := ih hbl h0
+      have ihn := ih hbl hc.prefix h0
       -- names below the old length do not change
       have hnames : ∀ p ∈ (List.range l.length).filter (isFinal (l ++ [x])),
           nameSpec dflt (l ++ [x]) p = nameSpec dflt l p := by
@@ -647,26 +666,51 @@ theorem finalNames_nodup {dflt : Nat → ν} (l : List (Item ν))
         | measB ts nm c rot => simp at hfin
         | meas ts nm c =>
           simp only [addItem] at hr
-          have hmi : mIndex (l ++ [Item.meas ts nm c]) l.length = nMeas s0.queue := by
-            rw [mIndex_snoc_le l _ (Nat.le_refl _), hinv.nM]
-            unfold mIndex
-            rw [List.take_length]
           have hns : nameSpec dflt (l ++ [Item.meas ts nm c]) l.length
-              = some (chosenName dflt s0 nm) := by
-            unfold nameSpec chosenName; rw [hlast]
-            cases nm with
-            | none => simp only; rw [hmi]
-            | some y => rfl
+              = match nm with
+                | some y => some y
+                | none => some (dflt (mIndex (l ++ [Item.meas ts nm c]) l.length)) := by
+            unfold nameSpec; rw [hlast]; cases nm <;> rfl
           rw [hns]
-          unfold addMeas at hr
-          simp only at hr
-          by_cases hd : (s0.meas.any fun p => nameAt s0.queue p == some (chosenName dflt s0 nm)) = true
-          · rw [if_pos hd] at hr; cases hr
-          · intro he
-            apply hd
-            rw [List.any_eq_true]
-            refine ⟨p, by rw [hinv.meas]; exact hp, ?_⟩
-            rw [nameAt_eq_nameSpec hinv hpl, he]; simp
+          cases nm with
+          | some y =>
+            simp only
+            unfold addMeas at hr
+            simp only at hr
+            by_cases hd : (s0.meas.any fun p => nameAt s0.queue p == some y) = true
+            · rw [if_pos hd] at hr; cases hr
+            · intro he
+              apply hd
+              rw [List.any_eq_true]
+              refine ⟨p, by rw [hinv.meas]; exact hp, ?_⟩
+              rw [nameAt_eq_nameSpec hinv hpl, he]; simp
+          | none =>
+            simp only
+            have hmi : mIndex (l ++ [Item.meas ts none c]) l.length = mIndex l l.length :=
+              mIndex_snoc_le l _ (Nat.le_refl _)
+            unfold isFinal at hpf
+            rw [List.getElem?_eq_getElem hpl] at hpf
+            unfold nameSpec
+            rw [List.getElem?_eq_getElem hpl]
+            cases hx : l[p] with
+            | gate qs => rw [hx] at hpf; simp at hpf
+            | measB ts' nm' c' rot => rw [hx] at hpf; simp at hpf
+            | meas ts' nm' c' =>
+              cases nm' with
+              | some y =>
+                simp only
+                intro he
+                have := hc p l.length ts' y c' ts c hpl
+                  (by rw [List.getElem?_append_left hpl, List.getElem?_eq_getElem hpl, hx]) hlast
+                exact this (Option.some.inj he)
+              | none =>
+                simp only
+                intro he
+                have h1 := hinj (Option.some.inj he)
+                have h2 : mIndex l p < mIndex l l.length :=
+                  mIndex_lt_of_meas hpl (Nat.le_refl _) (by rw [hx]; rfl)
+                rw [hmi] at h1
+                omega
       · rw [List.filter_cons_of_neg hfin, List.filter_nil, List.map_nil, List.append_nil]
         exact hfirst
 
@@ -777,12 +821,11 @@ theorem queue_shape {dflt : Nat → ν} {l : List (Item ν)} {st : St ν} (h : I
   · rw [List.getElem?_eq_none (by rw [h.length]; omega), List.getElem?_eq_none (by omega)]
     rfl
 
-theorem addMeas_none_iff (dflt : Nat → ν) (s : St ν) (ts : List Nat) (nm : Option ν) (c : Bool) :
-    addMeas dflt s ts nm c = none ↔
-      ∃ p ∈ s.meas, nameAt s.queue p = some (chosenName dflt s nm) := by
+theorem addMeas_none_iff (dflt : Nat → ν) (s : St ν) (ts : List Nat) (x : ν) (c : Bool) :
+    addMeas dflt s ts (some x) c = none ↔ ∃ p ∈ s.meas, nameAt s.queue p = some x := by
   unfold addMeas
   simp only
-  by_cases hd : (s.meas.any fun p => nameAt s.queue p == some (chosenName dflt s nm)) = true
+  by_cases hd : (s.meas.any fun p => nameAt s.queue p == some x) = true
   · rw [if_pos hd]
     simp only [true_iff]
     obtain ⟨p, hp, he⟩ := List.any_eq_true.mp hd
@@ -791,6 +834,10 @@ theorem addMeas_none_iff (dflt : Nat → ν) (s : St ν) (ts : List Nat) (nm : O
     simp only [reduceCtorEq, false_iff]
     rintro ⟨p, hp, he⟩
     exact hd (List.any_eq_true.mpr ⟨p, hp, by simp [he]⟩)
+
+theorem addMeas_default_isSome (dflt : Nat → ν) (s : St ν) (ts : List Nat) (c : Bool) :
+    (addMeas dflt s ts none c).isSome = true := by
+  unfold addMeas; rfl
 
 /-- `f"register{k}"` is injective in `k`. -/
 theorem registerName_injective : Function.Injective fun k : Nat => "register" ++ toString k := by
